@@ -645,8 +645,8 @@ class PhaseField(_Simu):
 
     def Save_Iter(self, iter=None):
 
-        if iter is None:
-            iter = {}
+        # never write into the dict of the caller (it may be reused from step to step)
+        iter = {} if iter is None else iter.copy()
 
         # convergence informations
         iter["Niter"] = self.__Niter
